@@ -98,6 +98,14 @@ def r12_1(ctx: Ctx, rep: Report) -> None:
         for t, truth in p.atoms:
             if truth and isinstance(t, ast.Call) and isinstance(t.func, ast.Attribute) and t.func.attr == "startswith" and src(t.func.value) == "line":
                 skipped = t
+            elif truth and isinstance(t, ast.Name) and t.id in p.env:
+                # is_known = any(line.startswith(s) for s in known_skip) / line.startswith(tuple_of_prefixes)
+                rt = deep_resolve(t, p.env)
+                inner = rt
+                if isinstance(rt, ast.Call) and isinstance(rt.func, ast.Name) and rt.func.id == "any" and len(rt.args) == 1 and isinstance(rt.args[0], (ast.GeneratorExp, ast.ListComp)):
+                    inner = rt.args[0].elt
+                if isinstance(inner, ast.Call) and isinstance(inner.func, ast.Attribute) and inner.func.attr == "startswith" and src(inner.func.value) == "line":
+                    skipped = inner
         if log is not None:
             rep.ok(f"_line_to_oace: None after {snippet(log, 40)}", "the dropped line is named in a warning record", where=where(f, log))
         elif skipped is not None:
@@ -219,6 +227,18 @@ def r12_3(ctx: Ctx, rep: Report) -> None:  # noqa: C901
     rep.floor(5, "exception handlers in the package")
 
 
+def _falsy_atom(t: ast.AST, truth: bool, var: str) -> bool:
+    """The atom establishes that `var` is None/falsy: `var` false, `var is None` true, `var is not None` false, `var == None`."""
+    if src(t) == var:
+        return not truth
+    if isinstance(t, ast.Compare) and len(t.ops) == 1 and src(t.left) == var and isinstance(t.comparators[0], ast.Constant) and t.comparators[0].value is None:
+        if isinstance(t.ops[0], (ast.Is, ast.Eq)):
+            return truth
+        if isinstance(t.ops[0], (ast.IsNot, ast.NotEq)):
+            return not truth
+    return False
+
+
 def _callers_report(ctx: Ctx, g: Func) -> Tuple[bool, str]:
     """Every caller of g logs (naming its argument) or raises on the path where g's result is falsy."""
     callers = []
@@ -242,7 +262,7 @@ def _callers_report(ctx: Ctx, g: Func) -> Tuple[bool, str]:
             argnames |= names_in(a)
         ok = False
         for p in function_paths(cfg):
-            falsy = any(src(t) == var and not truth for t, truth in p.atoms)
+            falsy = any(_falsy_atom(t, truth, var) for t, truth in p.atoms)
             if not falsy:
                 continue
             if p.raises or _path_logs(p.nodes, p.env, argnames, LOG_ANY) is not None:
